@@ -21,6 +21,8 @@ enum MSpec {
     Plain,
     CallsSuper,
     SuperValue,
+    /// super.m() inside a lambda nested in the method
+    CallsSuperInLambda,
 }
 #[derive(Clone, Copy, Debug, PartialEq)]
 enum Ctor {
@@ -35,8 +37,15 @@ fn class_decl(name: &str, parent: Option<&str>, m: MSpec, n: bool, ctor: Ctor) -
     let tag = |what: &str| s(&format!("{}.{}", name, what));
     match m {
         MSpec::Absent => {}
-        MSpec::Plain => methods.push(method(FnKind::Method, "m", &[], vec![ret(tag("m"))])),
+        // (the method says which receiver it got)
+        MSpec::Plain => methods.push(method(FnKind::Method, "m", &[], vec![ret(Expr::Interp(vec![Part::Lit(format!("{}.m on ", name)), Part::Expr(call(var("type"), vec![Expr::SelfRef]))]))])),
         MSpec::CallsSuper => methods.push(method(FnKind::Method, "m", &[], vec![ret(bin(BinOp::Add, tag("m>"), Expr::SuperInvoke("m".into(), vec![])))])),
+        MSpec::CallsSuperInLambda => methods.push(method(
+            FnKind::Method,
+            "m",
+            &[],
+            vec![var_stmt("via", lambda_expr(&[], Expr::SuperInvoke("m".into(), vec![]))), ret(bin(BinOp::Add, tag("m via lambda>"), call(var("via"), vec![])))],
+        )),
         MSpec::SuperValue => methods.push(method(FnKind::Method, "m", &[], vec![var_stmt("sm", Expr::SuperGet("m".into())), ret(bin(BinOp::Add, tag("m via value>"), call(var("sm"), vec![])))])),
     }
     if n {
@@ -98,6 +107,15 @@ fn uses(var_name: &str, class: &str, ctor: Ctor, names: &[&str]) -> Vec<Stmt> {
         Some(("err".into(), vec![print_stmt(call(var("type"), vec![var("err")]))])),
         None,
     )));
+    // a field is found first whatever it holds: nil, false and 0 in a field named like a method shadow the
+    // method for the fused call, for the plain read and for the call of the value read
+    for val in [Expr::Nil, Expr::False, num(0.0)] {
+        v.push(st(StmtKind::Try(vec![expr_stmt(set(x(), "m", val.clone()))], Some(("err".into(), vec![print_stmt(call(var("type"), vec![var("err")]))])), None)));
+        v.push(probe(invoke(x(), "m", vec![])));
+        v.push(probe(get(x(), "m")));
+        v.push(probe(call(get(x(), "m"), vec![])));
+        v.push(probe(invoke(x(), "n", vec![])));
+    }
     v
 }
 
@@ -108,7 +126,7 @@ fn var_stmt_global(name: &str, e: Expr) -> Stmt {
 }
 
 fn g1(thorough: bool) -> Vec<Case> {
-    let mspecs = [MSpec::Absent, MSpec::Plain, MSpec::CallsSuper, MSpec::SuperValue];
+    let mspecs = [MSpec::Absent, MSpec::Plain, MSpec::CallsSuper, MSpec::SuperValue, MSpec::CallsSuperInLambda];
     let ctors = [Ctor::None, Ctor::Default, Ctor::Explicit, Ctor::ExplicitSuper];
     let names = ["A", "B", "C"];
     let mut out = Vec::new();
@@ -123,11 +141,11 @@ fn g1(thorough: bool) -> Vec<Case> {
             for level in 0..depth {
                 let c = k % per_class;
                 k /= per_class;
-                let m = mspecs[c % 4];
-                let n = (c / 4) % 2 == 1;
-                let ctor = ctors[c / 8];
+                let m = mspecs[c % 5];
+                let n = (c / 5) % 2 == 1;
+                let ctor = ctors[c / 10];
                 // `super` needs a superclass (otherwise a compile error)
-                if level == 0 && (matches!(m, MSpec::CallsSuper | MSpec::SuperValue) || ctor == Ctor::ExplicitSuper) {
+                if level == 0 && (matches!(m, MSpec::CallsSuper | MSpec::SuperValue | MSpec::CallsSuperInLambda) || ctor == Ctor::ExplicitSuper) {
                     ok = false;
                 }
                 specs.push((m, n, ctor));
@@ -328,8 +346,8 @@ pub fn run(ctx: &Ctx) -> Report {
     mcheck::fill_report(
         &mut report,
         &stats,
-        "G1: every hierarchy of depth 1-3 where each class independently has method m absent / plain / overriding through super.m() / through super.m taken as a value, optionally n calling self.m(), and one of four constructor forms; probed with calls, bound values, wrong arity, unknown members, fields shadowing methods, type and derives on instances of the two most derived classes. G2: static methods and Self through class, instance and subclass instance. G3: classes in local scopes, captured variables, rebound superclass names. G4: every non-class value as superclass; deriving built-in error classes. G5: construction, arity, invoke == get-then-call. non-trivial = at least four observations.",
-        json!({"hierarchy_depth": 3, "per_class_choices": 32, "reduced_constructor_forms_at_depth_3": !thorough}),
+        "G1: every hierarchy of depth 1-3 where each class independently has method m absent / plain / overriding through super.m() / through super.m taken as a value / through super.m() inside a lambda nested in the method, optionally n calling self.m(), and one of four constructor forms; probed with calls, bound values, wrong arity, unknown members, fields shadowing methods, type and derives on instances of the two most derived classes. G2: static methods and Self through class, instance and subclass instance. G3: classes in local scopes, captured variables, rebound superclass names. G4: every non-class value as superclass; deriving built-in error classes. G5: construction, arity, invoke == get-then-call. non-trivial = at least four observations.",
+        json!({"hierarchy_depth": 3, "per_class_choices": 40}),
     );
     report.assumptions = vec!["static methods and constructors are looked up on the class they were defined in and on instances, not through subclasses' class objects (Appendix A)".into()];
     report.violations = stats.violations;
